@@ -92,7 +92,10 @@ def unit_rac(eng, tier="quick"):
     import itertools
     faults = [("ok", "nop\nmake_raw\n", 0), ("warn", ".byte\nmake_raw\n", 0), ("warn2", "clr @r0\nmake_raw\n", 0), ("err-value", ".word 200000\nmake_raw\n", 1),
               ("err-undef", ".word zz\nmake_raw\n", 1), ("err-parse", "mov (, r0\nmake_raw\n", 1), ("err-user", ".error boom\nmake_raw\n", 1), ("err-dup", "a: a:\nmake_raw\n", 1),
-              ("err-branch", "br .+1000\nmake_raw\n", 1), ("err-link", ".link 1\n.link 2\nmake_raw\n", 1)]
+              ("err-branch", "br .+1000\nmake_raw\n", 1), ("err-link", ".link 1\n.link 2\nmake_raw\n", 1),
+              # orders of several diagnostics: the latch must survive whatever is reported afterwards (also a warning that -W filters out)
+              ("err-then-warn", "a: a:\n.byte\nmake_raw\n", 1), ("warn-then-err", ".byte\na: a:\nmake_raw\n", 1), ("err-then-filtered-warn", "a: a:\nmov @(r1), r2\nmake_raw\n", 1),
+              ("parse-err-then-warn", "r0: nop\n.byte\nmake_raw\n", 1), ("two-errors", "a: a:\nb: b:\nmake_raw\n", 1)]
     wsel = [[], ["-Wall"], ["-Wno-implicit-operand"], ["-Wmeta-typo", "-Wno-not-implemented"]]
     if tier == "quick":
         wsel = wsel[:3]
@@ -137,7 +140,8 @@ def units(tier):
             for h in ("callable", "filter"):
                 us.append(("handle_reports[%s,%s,%s]" % (exc, errcond, h), "unit_handle_reports", dict(exc=exc, errcond=errcond, handler=h)))
     for p in ("error", "critical", "warning"):
-        us.append(("emit_report[%s]" % p, "unit_emit_report", dict(prio=p)))
+        for latched in (False, True):
+            us.append(("emit_report[%s,%s]" % (p, latched), "unit_emit_report", dict(prio=p, latched=latched)))
     for of in OUTFILES:
         for lst in (False, True):
             for ib in (False, True):
@@ -172,9 +176,38 @@ def _d12(tree):
         shutil.rmtree(d, ignore_errors=True)
 
 
+def replay_emit_report(tree):
+    """the real emit_report under a real handle_reports: the latch after each sequence of severities"""
+    code = """
+from pdpy11 import reports
+out = {}
+for seq in (["warning"], ["error"], ["error", "warning"], ["warning", "error"], ["error", "warning", "warning"], ["error", "error"]):
+    h = reports.handle_reports(lambda *a: None)
+    latch = None
+    try:
+        with h:
+            for s in seq:
+                reports.emit_report(getattr(reports, s), "some-id", (None, None, "text"))
+            latch = h.is_error_condition
+            h.is_error_condition = False
+    except reports.UnrecoverableError:
+        pass
+    out[",".join(seq)] = latch
+result = dict(latches=out, ok=all(v == ("error" in k) for k, v in out.items()))
+"""
+    jobs = [dict(kind="py", code=code)]
+    r = driver.native(jobs, tree)[0]
+    r = r.get("result") or r
+    return dict(jobs=jobs, expected="latch == (an error was reported earlier in the sequence)", observed=r, reproduced=isinstance(r, dict) and r.get("ok") is False)
+
+
 def replay(o, tree):
-    if "failed-run-has-written-no-output" in o.get("label", ""):
-        return _d12(tree)
+    if "failed-run-has-written-no-output" in o.get("label", "") and "D12" not in common.ACTIVE_FINDINGS:
+        r = _d12(tree)          # (with D12 listed, its region is excluded from the obligation, so a failure is something else: the fault catalogue below)
+        if r["reproduced"]:
+            return r
+    if o.get("unit", "").startswith("emit_report["):
+        return replay_emit_report(tree)
     old = os.environ.get("PDPY11_SRC")
     os.environ["PDPY11_SRC"] = tree
     try:
